@@ -415,7 +415,7 @@ def check_static(ctx, rng, apps, validators):
     return (kind, path, method, repr(hdrs))
 
 
-def static_in_flight(ctx, rng, apps, validators):
+def static_in_flight(ctx, rng, apps, validators, pre=None):
     """2-4 requests with assorted validators in flight together on one static app object: on either interface each client
     gets what it gets alone (vf/inflight.py) - so the two interfaces stay equivalent under load as well"""
     from vf import inflight
@@ -431,7 +431,7 @@ def static_in_flight(ctx, rng, apps, validators):
         reqs.append(drivers.Req(path=path.encode("utf-8"), headers=hdrs))
         spec.append((path, hdrs))
     for iface in ("wsgi", "asgi"):
-        inflight.check_group(ctx, iface, apps[(iface, kind)], reqs, "static", {"app": kind, "in_flight_requests": spec})
+        inflight.check_group(ctx, iface, apps[(iface, kind)], reqs, "static", {"app": kind, "in_flight_requests": spec}, pre=pre)
     return (kind, repr(spec))
 
 
@@ -504,8 +504,13 @@ def run(ctx):
         key = check_static(ctx, rng, apps, validators)
         ctx.case(("static",) + key)
     ctx.sample("static", {"app": "Pages", "path": "/dir", "method": "GET", "headers": [("If-None-Match", "*")]})
+    from vf import inflight
     for i in range(ctx.scale(60, 4000)):
-        ctx.case(("static-in-flight",) + static_in_flight(ctx, rng, apps, validators))
+        if i % 10 == 0:
+            with inflight.preemptor() as pre:
+                ctx.case(("static-in-flight",) + static_in_flight(ctx, rng, apps, validators, pre))
+        else:
+            ctx.case(("static-in-flight",) + static_in_flight(ctx, rng, apps, validators))
 
 
 def replay(ctx, case):
